@@ -4,7 +4,10 @@ correspondence: functional *_payoff and derivative.payoff() (with clauses) vs th
 (Model/Payoff.lean) at Rat, exact on dyadic paths; variance swap through the Float carrier;
 forward-start index through the bit-exact Float replica of floor(start/dt);
 whole SESSIONS on one derivative object (attribute re-assignments, in-place price edits, buffer replacement, clause
-registration, refused operations, payoff() in between) vs `run` of Model/Session.lean (driver op "session"), every answer exact.
+registration, refused operations, payoff() in between) vs `run` of Model/Session.lean (driver op "session"), every answer exact;
+clauses handed over as lambdas / functions / callable instances / bound methods / partials, one descriptor = ONE callable object, so a
+clause registered twice (under two names) is the same callable twice (ops "clauses" and "session" see the same registrations);
+functionals on price tensors of shape (T,), (B, N, T), ... (contiguous, permuted, strided) vs op "payoff" / "var_swap" path by path.
 property predicate: the contract formulas in exact Fractions (independent of the model).
 """
 import math
@@ -43,10 +46,10 @@ def gen_paths(g, N, T, bits, pow2=False):
     return paths
 
 
-def gen_case(g, tier):
+def gen_case(g, tier, N=None):
     kind = g.choice(KINDS)
     dtype = g.weighted([("float64", 3), ("float32", 1)])
-    N = g.small()
+    N = g.small() if N is None else N
     T = g.small((1, 1, 2, 2, 3, 4, 5, 8, 16)) if not (tier == "thorough" and g.chance(0.03)) else 150
     bits = 3
     paths = gen_paths(g, N, T, bits, pow2=(kind == "forward_start"))
@@ -115,6 +118,63 @@ def _where(cond, p):
     return torch.where(cond, p, torch.zeros_like(p))
 
 
+# the callable a clause is handed over as: the property speaks of "any sequence of user clauses", i.e. any callable
+# (derivative, payoff) -> payoff, and the SAME callable may be registered more than once (under several names)
+CFORMS = ["lambda", "function", "instance", "method", "partial"]
+
+
+class _ClauseObj:
+    """a callable instance; `apply` is handed over as a bound method (a new, equal bound-method object at every access)"""
+
+    def __init__(self, f):
+        self.f = f
+
+    def __call__(self, derivative, payoff):
+        return self.f(derivative, payoff)
+
+    def apply(self, derivative, payoff):
+        return self.f(derivative, payoff)
+
+
+def _call3(f, derivative, payoff):
+    return f(derivative, payoff)
+
+
+class ClausePool:
+    """the clause callables of ONE derivative.  share=True: one descriptor = one callable object, however often and under
+    however many names it is registered (two 50% haircuts, a fee before and after a cap); share=False: a new callable each time"""
+
+    def __init__(self, cform, share):
+        self.cform, self.share, self.pool = cform, share, {}
+
+    def get(self, desc):
+        key = tuple(desc)
+        if not (self.share and key in self.pool):
+            f = CLAUSES[desc[0]](*[F(x) for x in desc[1:]])
+            if self.cform == "function":
+                def clause(derivative, payoff, f=f):
+                    return f(derivative, payoff)
+                f = clause
+            elif self.cform in ("instance", "method"):
+                f = _ClauseObj(f)
+            elif self.cform == "partial":
+                import functools
+                f = functools.partial(_call3, f)
+            self.pool[key] = f
+        f = self.pool[key]
+        return f.apply if self.cform == "method" else f
+
+
+def same_clause_twice(adds):
+    """the registry holds one descriptor under two (or more) names"""
+    order, table = [], {}
+    for name, desc in adds:
+        if name not in table:
+            order.append(name)
+        table[name] = tuple(desc)
+    return len({table[n] for n in order}) < len(order)
+
+
 def gen_deriv(g, tier):
     kind = g.choice(KINDS + ["variance_swap"])
     N, T = g.small(), g.small((2, 2, 3, 4, 5, 8))
@@ -127,18 +187,22 @@ def gen_deriv(g, tier):
     for _ in range(g.choice([0, 0, 1, 2, 3, 5])):
         name = g.choice(["a", "b", "c", "knock"])
         ck = g.choice(["affine", "cap", "floor"])
-        if ck == "affine":
+        if adds and g.chance(0.35):
+            d = list(g.choice(adds)[1])          # a clause registered before, once more (mostly under another name)
+        elif ck == "affine":
             d = ["affine", rat_str(g.choice([F(1, 2), F(2), F(-1), F(1)])), rat_str(g.choice([F(0), F(1, 2), F(-1, 4)]))]
         else:
             d = [ck, rat_str(g.dy(0, 2, 2))]
         adds.append([name, d])
     dtk = g.choice([F(1, 4), F(1, 8), F(1, 256), F(1, 2)])
     sidx = g.randint(0, T - 1)
-    return dict(kind=kind, call=call, strike=k, paths=paths, adds=adds, dt=dtk, sidx=sidx)
+    return dict(kind=kind, call=call, strike=k, paths=paths, adds=adds, dt=dtk, sidx=sidx,
+                cform=g.choice(CFORMS), share=g.chance(0.8))
 
 
-def build_deriv(torch, c):
+def build_deriv(torch, c, pool=None):
     import pfhedge.instruments as I
+    pool = pool if pool is not None else ClausePool(c["cform"], c["share"])
     dt = torch.float64
     stock = I.BrownianStock(dt=float(c["dt"]), dtype=dt)
     stock.register_buffer("spot", torch.tensor([[float(v) for v in p] for p in c["paths"]], dtype=dt))
@@ -159,7 +223,7 @@ def build_deriv(torch, c):
     else:
         d = I.VarianceSwap(stock, strike=k, maturity=mat)
     for name, desc in c["adds"]:
-        d.add_clause(name, CLAUSES[desc[0]](*[F(x) for x in desc[1:]]))
+        d.add_clause(name, pool.get(desc))
     return d, stock
 
 
@@ -181,6 +245,24 @@ def apply_clauses_py(adds, p, path=None):
         else:
             p = max(p, F(d[1]))
     return order, p
+
+
+def apply_clauses_float(adds, x):
+    """apply_clauses_py in doubles (affine / cap / floor)"""
+    order, table = [], {}
+    for name, desc in adds:
+        if name not in table:
+            order.append(name)
+        table[name] = desc
+    for name in order:
+        d = table[name]
+        if d[0] == "affine":
+            x = x * float(F(d[1])) + float(F(d[2]))
+        elif d[0] == "cap":
+            x = min(x, float(F(d[1])))
+        else:
+            x = max(x, float(F(d[1])))
+    return x
 
 
 def check(ctx):
@@ -225,6 +307,7 @@ def check(ctx):
         elif ri[0] == "err" and T >= 1:
             ctx.fail(f"{c['kind']}_payoff raised on a valid path", to_req(c),
                      key=f"functional.{c['kind']}_payoff:error", detail=ri)
+    check_functional_nd(ctx, torch, g)
     # ------------- derivative level: payoff_fn wiring, clauses, start index, variance swap
     reqs, metas = [], []
     vs_reqs, vs_meta = [], []
@@ -240,6 +323,8 @@ def check(ctx):
             ctx.mutated("derivative.payoff", mut, _small(c))
         ctx.stats[f"d:kind={c['kind']}"] += 1
         ctx.stats[f"d:nclauses={len(c['adds'])}"] += 1
+        ctx.stats[f"d:clause_callable={c['cform']}"] += 1
+        ctx.stats[f"d:same-clause-twice={same_clause_twice(c['adds'])}"] += 1
         ctx.case(_small(c), nontrivial=True, tag="deriv_" + c["kind"])
         ctx.traces += 1
         if st != "ok":
@@ -263,6 +348,15 @@ def check(ctx):
                 if abs(got - exp) > 1e-9 * (1 + abs(exp)):
                     ctx.fail("variance swap payoff differs from annualised mean squared log-return minus strike",
                              _small(c), key="derivative.variance_swap.payoff:value", detail={"impl": got, "def": exp})
+            # registered clauses on payoff_fn() in registration order: the clause arithmetic (one IEEE multiplication and addition,
+            # min, max) is correctly rounded, so doing the same in Python doubles on the base payoff is exact
+            expc = [apply_clauses_float(c["adds"], float(b)) for b in base.tolist()]
+            gotc = [float(z) for z in v.tolist()]
+            if gotc != expc:
+                ctx.fail("variance swap: payoff() differs from the registered clauses applied to payoff_fn() in registration order",
+                         _small(c), key="derivative.variance_swap.payoff:" + ("same-clause-twice" if same_clause_twice(c["adds"])
+                                                                            else "clauses"),
+                         detail={"impl": gotc, "clauses(payoff_fn)": expc, "payoff_fn": base.tolist()})
             continue
         got = tensor_to_fracs(v)
         start = c["sidx"] if c["kind"] == "forward_start" else 0
@@ -273,6 +367,11 @@ def check(ctx):
             if c["kind"] == "forward_start" and d._start_index() != c["sidx"]:
                 ctx.fail("forward-start option starts at the wrong time index: floor(start/dt) in doubles lands one index early",
                          _small(c) | {"start_index": d._start_index()}, key="cliquet._start_index:floor(start/dt)",
+                         detail={"impl": enc_rat(got), "contract": enc_rat(exp)})
+            elif same_clause_twice(c["adds"]):
+                ctx.fail("derivative.payoff() differs from clauses(contract payoff) in registration order: one clause is registered "
+                         "under several names (" + ("the same callable object" if c["share"] else "equal callables") + ") and applies "
+                         "once per registration", _small(c), key=f"derivative.{c['kind']}.payoff:same-clause-twice",
                          detail={"impl": enc_rat(got), "contract": enc_rat(exp)})
             else:
                 ctx.fail("derivative.payoff() differs from clauses(contract payoff) in registration order",
@@ -382,13 +481,143 @@ def check(ctx):
     check_offgrid_maturity(ctx, torch, g)
     return ctx.finish(
         rule="functional payoffs on dyadic paths (ties with the strike/extremes frequent, T=1,2,.., float32/64), derivative objects "
-             "with injected buffers and random clause sequences (re-registration included), forward-start index sweeps over dt/start; "
+             "with injected buffers and random clause sequences (re-registration included; the same clause = the same callable object "
+             "registered under several names; callables of five kinds; variance swap with clauses), functionals on 1-D / 3-D / 4-D price "
+             "tensors incl. square shapes and non-contiguous layouts (one entry per path, each the contract value; realized variance / "
+             "volatility likewise), forward-start index sweeps over dt/start; "
              "ONE derivative object re-used over a sequence of contract-term changes (strike, call flag, start), in-place price edits, "
              "buffer re-registrations / simulate() and clause registrations (incl. a knock-out clause reading the current buffer, refused names, "
              "cell indices outside the buffer) with payoff() after most steps, each such session also run through the Lean session model "
              "(op session: every payoff() answer / raised error / final object state compared exactly); forward-start options on SIMULATED paths "
              "whose maturity is / is not a whole number of steps (terminal price = last simulated column, start=0 vs EuropeanOption); "
              "non-trivial = T>=2 (functional), any derivative/start-index/re-use/off-grid case; distinct = sha1 of canonical case")
+
+
+# ---------------------------------------------------------------------------------------------------------------------------
+# the functionals are documented for price tensors of shape (*, T) -> (*): a single path (T,), scenarios x paths x time, ... ;
+# the last axis is time, every other axis enumerates paths: one entry per path, each the contract value of that path
+
+ND_BATCHES = [(), (), (1,), (1, 1), (2, 2), (3, 3), (2, 3), (3, 2), (1, 4), (4, 1), (2, 2, 2), (3, 3, 3), (2, 1, 3), (1, 2, 1, 2)]
+
+
+def check_functional_nd(ctx, torch, g):
+    import pfhedge.nn.functional as fnl
+    cases, impl, reqs = [], [], []
+    for _ in range(350 if ctx.tier == "quick" else 5000):
+        batch = g.choice(ND_BATCHES)
+        if g.chance(0.3) and batch:
+            batch = batch[:-1] + (g.choice([1, 2, 3, 5]),)
+        N = 1
+        for b in batch:
+            N *= b
+        c = gen_case(g, "quick", N=N)
+        T = len(c["paths"][0])
+        if g.chance(0.35) and batch:
+            # the time axis as long as a path axis: reading the wrong axis gives a tensor of the right size with other values
+            T = g.choice(batch)
+            c["paths"] = gen_paths(g, N, T, 3, pow2=(c["kind"] == "forward_start"))
+            if c["kind"] == "forward_start":
+                c["start"], c["stop"] = g.randint(-T, T - 1), g.choice([-1, -1, g.randint(-T, T - 1)])
+            else:
+                c["strike"] = g.choice([p[-1] for p in c["paths"]] + [max(p) for p in c["paths"]] + [g.dy(F(1, 4), 4, 3)])
+        layout = g.choice(["contiguous", "contiguous", "permuted", "strided"]) if len(batch) >= 2 else "contiguous"
+        c["batch"], c["layout"] = list(batch), layout
+        dt = getattr(torch, c["dtype"])
+        x = torch.tensor([[float(v) for v in p] for p in c["paths"]], dtype=dt).reshape(tuple(batch) + (T,))
+        if layout == "permuted":
+            # the same values, the memory laid out with the time axis first (a non-contiguous view)
+            nd = x.dim()
+            x = x.permute(nd - 1, *range(nd - 1)).contiguous().permute(*range(1, nd), 0)
+        elif layout == "strided":
+            # every second column of a tensor twice as long (a non-contiguous time axis)
+            wide = torch.zeros(tuple(batch) + (2 * T,), dtype=dt)
+            wide[..., ::2] = x
+            x = wide[..., ::2]
+        k = float(c["strike"])
+        if c["kind"] == "forward_start":
+            st, v, mut = call_impl(fnl.european_forward_start_payoff, x, strike=k, start_index=c["start"], end_index=c["stop"])
+        else:
+            st, v, mut = call_impl(getattr(fnl, c["kind"] + "_payoff"), x, call=c["call"], strike=k)
+        req = to_req(c)
+        case = req | {"dtype": c["dtype"], "batch": list(batch), "layout": layout}
+        if mut:
+            ctx.mutated("functional." + c["kind"] + "_payoff", mut, case)
+        ctx.case(case, nontrivial=True, tag="nd_" + c["kind"])
+        ctx.stats[f"nd:dims={len(batch) + 1}"] += 1
+        ctx.stats[f"nd:layout={layout}"] += 1
+        ctx.traces += 1
+        cases.append((c, case))
+        reqs.append(req)
+        if st != "ok":
+            impl.append(("err", v))
+            ctx.fail(f"{c['kind']}_payoff raised on a price tensor of shape {list(batch) + [T]} (documented: (*, T) -> (*))", case,
+                     key=f"functional.{c['kind']}_payoff:nd-error", detail=v)
+            continue
+        if tuple(v.shape) != tuple(batch) or v.dtype != dt:
+            impl.append(("badshape", [list(v.shape), str(v.dtype)]))
+            ctx.fail(f"{c['kind']}_payoff on a price tensor of shape {list(batch) + [T]} does not have one entry per path "
+                     f"(shape {list(batch)})", case, key=f"functional.{c['kind']}_payoff:nd-shape",
+                     detail=[list(v.shape), str(v.dtype)])
+            continue
+        got = tensor_to_fracs(v.reshape(-1))
+        impl.append(("ok", got))
+        exp = [contract(c["kind"], c["call"], c["strike"], p, c["start"], c["stop"]) for p in c["paths"]]
+        if got != exp:
+            ctx.fail(f"{c['kind']}_payoff on a price tensor of shape {list(batch) + [T]}: an entry is not the contract value of its path",
+                     case, key=f"functional.{c['kind']}_payoff:nd-value", detail={"impl": enc_rat(got), "contract": enc_rat(exp)})
+    try:
+        model = [mres(m) for m in ctx.driver(reqs)]
+    except DriverBroken as e:
+        ctx.ties_broken.append({"kind": "driver", "detail": str(e)[:1500]})
+        model = []
+    for (c, case), ri, rm in zip(cases, impl, model):
+        if ri != rm:
+            ctx.disagree("payoff_nd", case, ri if ri[0] != "ok" else ("ok", enc_rat(ri[1])),
+                         rm if rm[0] != "ok" else ("ok", enc_rat(rm[1])))
+    # realized variance / volatility (the variance swap's floating leg), same shapes: Float carrier, tolerance as for op var_swap
+    vreqs, vmeta = [], []
+    for _ in range(60 if ctx.tier == "quick" else 800):
+        batch = g.choice(ND_BATCHES)
+        N = 1
+        for b in batch:
+            N *= b
+        T = g.choice([2, 2, 3, 5] + [b for b in batch if b >= 2])
+        paths = gen_paths(g, N, T, 3)
+        dtv = float(g.choice([F(1, 4), F(1, 8), F(1, 256), F(1, 2)]))
+        x = torch.tensor([[float(v) for v in p] for p in paths], dtype=torch.float64).reshape(tuple(batch) + (T,))
+        case = {"realized": True, "batch": list(batch), "dt": dtv, "paths": enc_rat(paths)}
+        ctx.case(case, True, tag="nd_realized_variance")
+        ctx.traces += 1
+        res = {}
+        for name in ("realized_variance", "realized_volatility"):
+            st, v, mut = call_impl(getattr(fnl, name), x, dt=dtv)
+            if st != "ok" or tuple(v.shape) != tuple(batch):
+                ctx.fail(f"{name} raised / does not have one entry per path on a price tensor of shape {list(batch) + [T]}", case,
+                         key=f"functional.{name}:nd-shape", detail=v if st != "ok" else list(v.shape))
+                continue
+            res[name] = [float(z) for z in v.reshape(-1).tolist()]
+            for p, got in zip(paths, res[name]):
+                lr = [math.log(float(p[i + 1])) - math.log(float(p[i])) for i in range(len(p) - 1)]
+                exp = sum(z * z for z in lr) / len(lr) / dtv
+                exp = exp if name == "realized_variance" else math.sqrt(exp)
+                if abs(got - exp) > 1e-9 * (1 + abs(exp)):
+                    ctx.fail(f"{name} on a price tensor of shape {list(batch) + [T]} is not the annualised mean squared log-return "
+                             "of its path", case, key=f"functional.{name}:nd-value", detail={"impl": got, "def": exp})
+                    break
+        if len(res) == 2:
+            vreqs.append({"op": "var_swap", "dt": float_bits(dtv), "strike": float_bits(0.0),
+                          "paths": enc_flt([[float(z) for z in p] for p in paths])})
+            vmeta.append((case, res))
+    try:
+        vouts = ctx.driver(vreqs)
+    except DriverBroken as e:
+        ctx.ties_broken.append({"kind": "driver", "detail": str(e)[:1500]})
+        vouts = []
+    for (case, res), m in zip(vmeta, vouts):
+        for name, field in (("realized_variance", "payoff"), ("realized_volatility", "rvol")):
+            mv = dec_flt(m[field])
+            if len(mv) != len(res[name]) or not all(abs(a - b) <= 1e-10 * (1 + abs(a)) for a, b in zip(res[name], mv)):
+                ctx.disagree("var_swap_nd:" + name, case, res[name], mv)
 
 
 # ---------------------------------------------------------------------------------------------------------------------------
@@ -411,6 +640,7 @@ def gen_reuse_ops(g, c):
     pow2 = kind == "forward_start"
     vs = kind == "variance_swap"
     ops = []
+    descs = [list(d) for _, d in c["adds"]]          # clauses registered so far (whatever the name)
     for _ in range(g.choice([1, 2, 3, 4, 6, 10])):
         N, T = len(paths), len(paths[0])
         menu = [("strike", 4), ("again", 1), ("reregister", 1), ("simulate", 1), ("badcell", 1)]
@@ -459,13 +689,17 @@ def gen_reuse_ops(g, c):
             o = [op, enc_rat(paths)]
         elif op in ("clause", "badclause"):
             ck = g.choice(["affine", "cap", "floor", "knock_out"])
-            if ck == "affine":
+            if descs and g.chance(0.35):
+                d = list(g.choice(descs))                # the SAME clause once more: under a new name, or replacing another one
+            elif ck == "affine":
                 d = ["affine", rat_str(g.choice([F(1, 2), F(2), F(-1)])), rat_str(g.choice([F(0), F(1, 2), F(-1, 4)]))]
             elif ck == "knock_out":
                 d = ["knock_out", rat_str(g.choice([max(p) for p in paths if p] + [g.dy(F(1, 4), 4, 3), F(2), F(4)]))]
             else:
                 d = [ck, rat_str(g.dy(0, 2, 2))]
             o = [op, g.choice(["a", "b", "z"]) if op == "clause" else g.choice(BAD_NAMES), d]
+            if op == "clause":
+                descs.append(list(d))
         else:
             o = ["again"]
         ops.append(["quiet", o] if (o[0] != "again" and g.chance(0.2)) else o)
@@ -497,8 +731,9 @@ def check_reuse(ctx, torch, g):
         ctx.case(case, nontrivial=True, tag="reuse_" + c["kind"])
         ctx.traces += 1
         ctx.stats[f"reuse:nops={len(ops)}"] += 1
+        pool = ClausePool(c["cform"], c["share"])       # one pool for the whole session: a repeated clause is the same callable
         try:
-            d, stock = build_deriv(torch, c)
+            d, stock = build_deriv(torch, c, pool)
         except Exception as e:  # noqa
             raise InternalError("cannot build derivative: " + repr(e))
         cur = dict(kind=c["kind"], call=c["call"], strike=c["strike"], paths=[list(p) for p in c["paths"]],
@@ -566,7 +801,7 @@ def check_reuse(ctx, torch, g):
                     if op[1] != "" and "." not in op[1] and op[1] not in ("strike", "payoff", "maturity"):
                         cur["adds"].append([op[1], op[2]])
                     try:
-                        d.add_clause(op[1], CLAUSES[op[2][0]](*[F(x) for x in op[2][1:]]))
+                        d.add_clause(op[1], pool.get(op[2]))
                         iouts.append(None)
                     except Exception as e:  # noqa
                         iouts.append(("err", canon_error(e)))
@@ -610,6 +845,11 @@ def check_reuse(ctx, torch, g):
                     ctx.fail("forward-start option starts at the wrong time index: floor(start/dt) in doubles lands one index early",
                              here | {"start_index": d._start_index()}, key="cliquet._start_index:floor(start/dt)", detail=det)
                     break
+            if not ok and same_clause_twice(cur["adds"]):
+                ctx.fail("payoff() of a re-used derivative object is not the contract payoff at its CURRENT terms on the CURRENT prices: "
+                         "one clause is registered under several names and applies once per registration, in registration order", here,
+                         key="derivative.payoff:reuse-same-clause-twice", detail=det)
+                break
             if not ok:
                 ctx.fail("payoff() of a re-used derivative object is not the contract payoff at its CURRENT terms on the CURRENT prices "
                          f"(after: {what}; something of an earlier evaluation survived?)", here,
@@ -737,4 +977,5 @@ def check_offgrid_maturity(ctx, torch, g):
 
 def _small(c):
     return {"kind": c["kind"], "call": c["call"], "strike": rat_str(c["strike"]), "paths": enc_rat(c["paths"]),
-            "adds": c["adds"], "dt": rat_str(c["dt"]), "sidx": c["sidx"]}
+            "adds": c["adds"], "dt": rat_str(c["dt"]), "sidx": c["sidx"], "clause_callable": c["cform"],
+            "one_object_per_clause": c["share"]}
